@@ -26,8 +26,8 @@ struct Exhausted : std::runtime_error { Exhausted(const char* w) : std::runtime_
 static bool g_use_real = false; typedef double (*drand48_t)(void); typedef void (*srand48_t)(long); static drand48_t real_drand48; static srand48_t real_srand48;
 extern "C" double drand48 (void) noexcept { g_ucalls++; if (g_use_real) return real_drand48(); if (g_uniform.empty()) { g_exhausted = "uniform-exhausted"; return 0.3; } double v = g_uniform.front(); g_uniform.pop_front(); return v; }
 extern "C" long random (void) noexcept { g_rcalls++; if (g_random.empty()) { g_exhausted = "random-exhausted"; return 12345; } long v = g_random.front(); g_random.pop_front(); return v; }
-static long g_seed48 = 0; static unsigned g_seedr = 0;
-extern "C" void srand48 (long s) noexcept { g_seed48 = s; if (g_use_real) real_srand48 (s); }
+static long g_seed48 = 0; static unsigned g_seedr = 0; static bool g_seeded = false;
+extern "C" void srand48 (long s) noexcept { g_seed48 = s; g_seeded = true; if (g_use_real) real_srand48 (s); }
 extern "C" void srandom (unsigned s) noexcept { g_seedr = s; }
 
 static double rd (const std::string& s) { unsigned long long u = std::stoull (s, 0, 16); double d; memcpy (&d, &u, 8); return d; }
@@ -47,7 +47,7 @@ int main ()
         BoxMuller bm (0); for (unsigned i=0;i<n;i++) o << hx ((double) bm()); o << " " << g_ucalls; }
       else if (op == "bm.two") { std::string pat = t[1]; for (size_t i=2;i<t.size();i++) g_uniform.push_back (rd (t[i]));
         BoxMuller a (0), b (0); for (char c : pat) o << hx ((double) (c == 'A' ? a.evaluate() : b.evaluate())); o << " " << g_ucalls; }
-      else if (op == "bm.seed") { long seed = std::stol (t[1]); g_seed48 = -1; BoxMuller bm (seed); o << " " << g_seed48; }
+      else if (op == "bm.seed") { long seed = std::stol (t[1]); g_seeded = false; BoxMuller bm (seed); if (g_seeded) o << " " << g_seed48; else o << " none"; }
       // the real libc source seeded through the constructor: the whole chain seed -> uniforms -> deviates
       else if (op == "bm.real") { long seed = std::stol (t[1]); unsigned n = std::stoul (t[2]); g_use_real = true; BoxMuller bm (seed);
         for (unsigned i=0;i<n;i++) o << hx ((double) bm()); o << " " << g_ucalls; g_use_real = false; }
